@@ -51,10 +51,15 @@ def main():
     for mf in sorted(glob.glob(os.path.join(V, 'seeded', pid + '-*', 'meta.json'))):
         m = json.load(open(mf))
         prev.append('  - ' + ' '.join((m.get('summary') or '').split())[:260])
+    focus = ''
+    if names[0] not in ('A', 'C'):
+        focus = ('FOCUS for this round: prefer (i) changes that need TWO cooperating edits in different functions or files, each harmless alone; (ii) the less obvious files and helpers '
+                 '(utils.py stream/helper classes, database.py, backup_utils.py, cli.py, small private helpers of container.py) when they matter for this property; (iii) changes to guards, defaults, '
+                 'constants, exception handling, ordering of cleanup, caching, or argument forwarding rather than to the central loop everybody looks at.\n\n')
     if prev and names[0] != 'A':
         avoid = ('ALREADY EXPLORED by earlier rounds (do NOT repeat these or close cousins of them; attack other code sites, other clauses of the property, other mechanisms):\n'
                  + '\n'.join(prev) + '\n\n')
-    txt = T.format(wt=wt, prop=json.dumps(p, indent=1), out=out, nvar=len(names), names='/'.join(names), avoid=avoid)
+    txt = T.format(wt=wt, prop=json.dumps(p, indent=1), out=out, nvar=len(names), names='/'.join(names), avoid=focus + avoid)
     fn = f'/tmp/seedtask/{pid}_{names[0]}.md'
     open(fn, 'w').write(txt)
     print(fn, wt)
